@@ -41,8 +41,15 @@ type childSpec struct {
 	All     bool                   `json:"all"`
 	Force   bool                   `json:"force"`
 	Script  map[string]scriptEntry `json:"script"` // "<dir>/<file>:<line>" -> behaviour
-	Outputs []outputFile           `json:"outputs"`
-	Out     string                 `json:"out"`
+
+	// Probe: the generators look around before they record a call, as generators that follow references do: Context.Doc on
+	// the type parameters and the field types of the visited type, and on every type name declared in an inner scope of
+	// the package (function-local types, type parameters of functions, methods and generic types).  Doc is a query: what it
+	// answers for the visited type afterwards, and which types are visited, must not depend on it.
+	Probe bool `json:"probe,omitempty"`
+
+	Outputs []outputFile `json:"outputs"`
+	Out     string       `json:"out"`
 }
 
 type childEvent struct {
@@ -101,7 +108,46 @@ func (r *recorder) register(c gengo.Context, gen string, pkg string, ds []deferS
 	}
 }
 
+func probeScope(c gengo.Context, s *types.Scope, top bool) {
+	if !top {
+		for _, n := range s.Names() {
+			if tn, ok := s.Lookup(n).(*types.TypeName); ok && tn.Pkg() != nil {
+				c.Doc(tn)
+			}
+		}
+	}
+	for i := 0; i < s.NumChildren(); i++ {
+		probeScope(c, s.Child(i), false)
+	}
+}
+
+func (r *recorder) probe(c gengo.Context, obj types.Object) {
+	defer func() { _ = recover() }()
+	ask := func(t types.Type) {
+		if o, ok := t.(interface{ Obj() *types.TypeName }); ok && o.Obj() != nil && o.Obj().Pkg() != nil {
+			c.Doc(o.Obj())
+		}
+	}
+	if n, ok := obj.Type().(*types.Named); ok {
+		for i := 0; i < n.TypeParams().Len(); i++ {
+			ask(n.TypeParams().At(i))
+		}
+		if st, ok := n.Underlying().(*types.Struct); ok {
+			for i := 0; i < st.NumFields(); i++ {
+				ask(st.Field(i).Type())
+			}
+		}
+	}
+	if a, ok := obj.Type().(*types.Alias); ok {
+		ask(a.Rhs())
+	}
+	probeScope(c, c.Package("").Pkg().Scope(), true)
+}
+
 func (r *recorder) onCall(kind string, gen string, c gengo.Context, obj types.Object) error {
+	if r.spec.Probe {
+		r.probe(c, obj)
+	}
 	cur := c.Package("")
 	pkg := cur.Pkg().Path()
 	p := cur.Position(obj.Pos())
